@@ -346,13 +346,13 @@ def npz_files(ctx):
         pairs = [(K, (npz_keys(V) or [None])[0]) for K, V in ents.items() if npz_keys(V)]
         rk = {k_ for _, k_ in pairs}
         if not pairs:
-            # wave_data handed to a callee that is chosen at run time (a table of builder functions, a strategy object):
-            # what that callee stores is not followed -- not judged
+            # a local object handed to a callee that is chosen at run time (a table of builder functions, a strategy object):
+            # what that callee stores into it is not followed -- not judged
             dyn = None
             for sc_ in with_private_helpers(p, rd):
                 local_ = {n_.id for n_ in ast.walk(sc_) if isinstance(n_, ast.Name) and isinstance(n_.ctx, ast.Store)}
                 for c_ in ast.walk(sc_):
-                    if isinstance(c_, ast.Call) and any(isinstance(a_, ast.Name) and a_.id == "wave_data" for a_ in
+                    if isinstance(c_, ast.Call) and any(isinstance(a_, ast.Name) for a_ in
                                                         list(c_.args) + [k_.value for k_ in c_.keywords]):
                         f_ = c_.func
                         if (isinstance(f_, ast.Name) and f_.id in local_) or isinstance(f_, (ast.Subscript, ast.Call)):
